@@ -147,6 +147,8 @@ pub struct Cfg {
     pub pre_allow: Vec<(u8, u8, u128)>,
     /// marketing admin named at instantiation (enables the "Marketing" action kind)
     pub marketing: Option<u8>,
+    /// chain-level (migration) admin of the token contract: has no authority inside the contract
+    pub wasm_admin: Option<u8>,
 }
 
 impl Cfg {
@@ -176,6 +178,7 @@ impl Cfg {
             migrate_probe: false,
             pre_allow: vec![],
             marketing: None,
+            wasm_admin: None,
         }
     }
     /// An actor named "^X" is the same account as X spelled in upper case (bech32 allows both cases);
@@ -527,6 +530,36 @@ impl Cw20Model {
                 }
             }
         }
+        // a listing resumed from ANY address (a row or not) shows exactly the rows that sort after it
+        let addrs: Vec<String> = (0..n).map(|i| cfg.addr(i)).collect();
+        for x in 0..n {
+            for c in 0..n {
+                let want_o: Vec<(String, u128)> = {
+                    let mut v: Vec<(String, u128)> = by_owner.iter().filter(|((ow, sp), _)| *ow == x && addrs[*sp as usize] > addrs[c as usize]).map(|((_, sp), (a, _))| (addrs[*sp as usize].clone(), *a)).collect();
+                    v.sort();
+                    v.truncate(30);
+                    v
+                };
+                if let Ok(page) = q::<AllAllowancesResponse>(w, &QueryMsg::AllAllowances { owner: addrs[x as usize].clone(), start_after: Some(addrs[c as usize].clone()), limit: Some(30) }) {
+                    let got: Vec<(String, u128)> = page.allowances.iter().map(|a| (a.spender.clone(), a.allowance.u128())).collect();
+                    if got != want_o {
+                        out.push(Violation::new("C19.owner_listing_from_cursor", format!("AllAllowances{{owner {}, start_after {}}} = {:?}, the full listing has {:?} after it", cfg.actors[x as usize], cfg.actors[c as usize], got, want_o)));
+                    }
+                }
+                let want_s: Vec<(String, u128)> = {
+                    let mut v: Vec<(String, u128)> = by_spender.iter().filter(|((ow, sp), _)| *sp == x && addrs[*ow as usize] > addrs[c as usize]).map(|((ow, _), (a, _))| (addrs[*ow as usize].clone(), *a)).collect();
+                    v.sort();
+                    v.truncate(30);
+                    v
+                };
+                if let Ok(page) = q::<AllSpenderAllowancesResponse>(w, &QueryMsg::AllSpenderAllowances { spender: addrs[x as usize].clone(), start_after: Some(addrs[c as usize].clone()), limit: Some(30) }) {
+                    let got: Vec<(String, u128)> = page.allowances.iter().map(|a| (a.owner.clone(), a.allowance.u128())).collect();
+                    if got != want_s {
+                        out.push(Violation::new("C19.spender_listing_from_cursor", format!("AllSpenderAllowances{{spender {}, start_after {}}} = {:?}, the full listing has {:?} after it", cfg.actors[x as usize], cfg.actors[c as usize], got, want_s)));
+                    }
+                }
+            }
+        }
         for ow in 0..n {
             for sp in 0..n {
                 let single = o.allow.get(&(ow, sp)).copied().unwrap_or((0, ExpKey::Never));
@@ -738,6 +771,9 @@ impl Model for Cw20Model {
         };
         let out = w.instantiate(vt(), &token_addr(), &mc::addr("creator"), &to_json_vec(&msg).unwrap(), &[]);
         let mut v = vec![];
+        if let Some(a) = cfg.wasm_admin {
+            w.set_wasm_admin(&token_addr(), Some(&cfg.addr(a)));
+        }
         if !out.ok() {
             return (
                 State {
